@@ -18,3 +18,8 @@ func VerifC17SortConfigByCreationTime(configs []config.Config) []config.Config {
 func VerifC17SortConfigBySelectorAndCreationTime(configs []config.Config) []config.Config {
 	return sortConfigBySelectorAndCreationTime(configs)
 }
+
+// VerifC17PickBestVisibleNamespace exposes pickBestVisibleNamespace.
+func VerifC17PickBestVisibleNamespace(ps *PushContext, byNamespace map[string]*Service, configNamespace string) string {
+	return pickBestVisibleNamespace(ps, byNamespace, configNamespace)
+}
